@@ -55,6 +55,7 @@ import (
 )
 
 const (
+	gatedID      = 0xE6
 	echoID       = 0xE5
 	statusDone   = 3 // c2.StatusCompleted
 	stChannel    = 1 << 8
@@ -83,6 +84,8 @@ type Hist struct {
 	MaxSlots int    `json:"max_outstanding_slots"`
 	Ops      []Op   `json:"ops"`
 	Repeat   int    `json:"repeat,omitempty"`
+	Kind     string `json:"kind,omitempty"`   // "" (operator history) | "rekey-race"
+	Rounds   int    `json:"rounds,omitempty"` // rekey-race
 }
 
 type failRec struct {
@@ -178,6 +181,9 @@ type cliRec struct {
 
 	mu   sync.Mutex
 	exec []execRec
+
+	started chan struct{} // gated tasker: a task has reached the handler
+	release chan struct{} // gated tasker: let it finish
 }
 
 type execRec struct {
@@ -371,18 +377,131 @@ func shape(h Hist, j *jobRec) string {
 	return s
 }
 
-func runHist(h Hist, idSeed uint64) (res HRes) {
-	t0 := time.Now()
-	res.K, res.Stats = h.K, map[string]int{}
-	r := &hrun{h: h, log: &memLog{t0: t0}, outJ: make([]int, h.NCl), outS: make([]int, h.NCl), done: make([][]*jobRec, h.NCl), lastEv: make([]time.Time, h.NCl)}
-	r.cond = sync.NewCond(&r.mu)
-	defer func() {
-		if e := recover(); e != nil {
-			res.Panic = fmt.Sprint(e)
-			res.Fails = append(res.Fails, failRec{"the harness goroutine driving the history panicked: " + res.Panic, "panic"})
+// gatedTasker is the echo tasker that reports its start and finishes when released.
+func gatedTasker(x context.Context, r data.Reader, w data.Writer) error {
+	var (
+		n, _ = r.(*com.Packet)
+		o, _ = w.(*com.Packet)
+		c, _ = x.Value(ctxKey{}).(*cliRec)
+	)
+	if n == nil || o == nil || c == nil {
+		atomic.AddInt32(&strayExec, 1)
+		return nil
+	}
+	p := n.Payload()
+	c.mu.Lock()
+	c.exec = append(c.exec, execRec{job: n.Job, ptok: payloadTok(p), dev: o.Device})
+	c.mu.Unlock()
+	c.started <- struct{}{}
+	<-c.release
+	_, err := w.Write(echoResult(c.id, p))
+	return err
+}
+
+// runRace is the targeted scenario for "a re-key announcement must travel alone": one client
+// that only polls when woken (sleep of hours, so one idle poll in 50 draws a re-key); one gated
+// task is outstanding per round and its result is released a few hundred microseconds after an
+// idle poll was started, so that it can be queued while the client generates the new KeyPair
+// (between pick()'s and next()'s look at the send queue).  Oracle as everywhere: every Job
+// completes once with the echo of its own payload by its own client, executed once.
+func runRace(h Hist, r *hrun, idSeed uint64, res *HRes) {
+	h.NCl, h.SleepMs = 1, []int{0}
+	_, clients, cleanup := startWorld(h, r, idSeed, []time.Duration{3 * time.Hour})
+	defer cleanup()
+	var (
+		c    = clients[0]
+		last = c2.VerifC05KeySum(c.sess)
+		end  = time.Now().Add(time.Duration(h.Rounds/125) * time.Second) // 20 s quick, 96 s thorough
+		fail = func(what, key string) {
+			r.fails = append(r.fails, failRec{what, key})
 		}
-		res.Ms = time.Since(t0).Milliseconds()
+	)
+	defer func() {
+		// let blocked taskers go
+		for {
+			select {
+			case c.release <- struct{}{}:
+				continue
+			case <-time.After(20 * time.Millisecond):
+			}
+			break
+		}
+		res.Fails, res.Trace = r.fails, nil
+		if len(r.fails) > 0 {
+			res.Diag = r.log.snapshot(40)
+		}
 	}()
+	for i := 1; i <= h.Rounds && time.Now().Before(end); i++ {
+		if k := c2.VerifC05KeySum(c.sess); k != last {
+			last = k
+			res.Rekeys++
+		}
+		b := genPayload(64, uint32(i)|1, uint32(i))
+		n := &com.Packet{ID: gatedID, Device: c.ss.ID}
+		n.Write(b)
+		j, err := c.ss.Task(n)
+		if err != nil {
+			fail(fmt.Sprintf("round %d: Task refused: %v", i, err), "rekey-race/task-refused")
+			return
+		}
+		res.Jobs++
+		d := make(chan struct{})
+		go func() { j.Wait(); close(d) }()
+		// 1: poll until the client has the task and its handler is running
+		run := false
+		for w := time.Now().Add(8 * time.Second); !run; {
+			c.sess.Wake()
+			select {
+			case <-c.started:
+				run = true
+			case <-d:
+				fail(fmt.Sprintf("round %d (%d re-keys so far): the Job finished without its task running on the client: status %d, error %q", i, res.Rekeys, j.Status, j.Error), "rekey-race/not-executed")
+				return
+			case <-time.After(2 * time.Millisecond):
+				if time.Now().After(w) {
+					fail(fmt.Sprintf("round %d (%d re-keys so far): the task never reached the client handler (status %d)", i, res.Rekeys, j.Status), "rekey-race/incomplete")
+					return
+				}
+			}
+		}
+		time.Sleep(300 * time.Microsecond)
+		// 2: start an idle poll; the result arrives a little later
+		c.sess.Wake()
+		time.Sleep(time.Duration(50+(i*37)%600) * time.Microsecond)
+		c.release <- struct{}{}
+		// 3: poll until the result is in
+		for w, ok := time.Now().Add(8*time.Second), false; !ok; {
+			select {
+			case <-d:
+				ok = true
+			case <-time.After(2 * time.Millisecond):
+				if c.sess.Wake(); time.Now().After(w) {
+					fail(fmt.Sprintf("round %d (%d re-keys so far): the Job never completed (status %d)", i, res.Rekeys, j.Status), "rekey-race/incomplete")
+					return
+				}
+			}
+		}
+		if j.Status != statusDone || j.Result == nil {
+			fail(fmt.Sprintf("round %d (%d re-keys so far): Job status %d, error %q", i, res.Rekeys, j.Status, j.Error), "rekey-race/status")
+			return
+		}
+		j.Result.Seek(0, 0)
+		if string(j.Result.Payload()) != string(echoResult(c.id, b)) {
+			fail(fmt.Sprintf("round %d (%d re-keys so far): the result is not the echo of its own payload by its own client", i, res.Rekeys), "rekey-race/wrong-result")
+			return
+		}
+	}
+	c.mu.Lock()
+	ne := len(c.exec)
+	c.mu.Unlock()
+	if ne != res.Jobs {
+		fail(fmt.Sprintf("%d jobs completed, %d executions on the client", res.Jobs, ne), "rekey-race/exec-count")
+	}
+	res.Stats["race_rounds"] = res.Jobs
+}
+
+// startWorld starts a fresh real Server + Listener and the client Sessions of a history.
+func startWorld(h Hist, r *hrun, idSeed uint64, sleep []time.Duration) (*c2.Server, []*cliRec, func()) {
 	srv := c2.NewServer(r.log)
 	srv.Keys.Fill() // otherwise generated asynchronously by the server loop
 	l, err := srv.Listen("c05", "127.0.0.1:0", profile(h.Profile, true, "", 0))
@@ -394,7 +513,7 @@ func runHist(h Hist, idSeed uint64) (res HRes) {
 		clients = make([]*cliRec, h.NCl)
 		cancels []context.CancelFunc
 	)
-	defer func() {
+	cleanup := func() {
 		// close everything, never wait for ever
 		for _, c := range clients {
 			if c != nil && c.sess != nil {
@@ -417,22 +536,27 @@ func runHist(h Hist, idSeed uint64) (res HRes) {
 			}
 		}
 		regMu.Unlock()
-	}()
+	}
 	for i := range clients {
-		c := &cliRec{h: r, idx: i, id: newID(idSeed*16 + uint64(i) + 1)}
+		c := &cliRec{h: r, idx: i, id: newID(idSeed*16 + uint64(i) + 1), started: make(chan struct{}, 8), release: make(chan struct{})}
 		clients[i] = c
 		regMu.Lock()
 		reg[c.id] = c
 		regMu.Unlock()
 		ctx, cancel := context.WithCancel(context.WithValue(context.Background(), ctxKey{}, c))
 		cancels = append(cancels, cancel)
+		d := time.Duration(h.SleepMs[i]) * time.Millisecond
+		if sleep != nil {
+			d = sleep[i]
+		}
 		connectMu.Lock()
 		oldU, oldD := local.UUID, local.Device.ID
 		local.UUID, local.Device.ID = c.id, c.id
-		c.sess, err = c2.ConnectContext(ctx, r.log, profile(h.Profile, false, addr, time.Duration(h.SleepMs[i])*time.Millisecond))
+		c.sess, err = c2.ConnectContext(ctx, r.log, profile(h.Profile, false, addr, d))
 		local.UUID, local.Device.ID = oldU, oldD
 		connectMu.Unlock()
 		if err != nil {
+			cleanup()
 			panic("connect: " + err.Error())
 		}
 		for k := 0; k < 3000 && c.ss == nil; k++ {
@@ -441,9 +565,32 @@ func runHist(h Hist, idSeed uint64) (res HRes) {
 			}
 		}
 		if c.ss == nil {
+			cleanup()
 			panic("the server never listed the session")
 		}
 	}
+	return srv, clients, cleanup
+}
+
+func runHist(h Hist, idSeed uint64) (res HRes) {
+	t0 := time.Now()
+	res.K, res.Stats = h.K, map[string]int{}
+	r := &hrun{h: h, log: &memLog{t0: t0}, outJ: make([]int, h.NCl), outS: make([]int, h.NCl), done: make([][]*jobRec, h.NCl), lastEv: make([]time.Time, h.NCl)}
+	r.cond = sync.NewCond(&r.mu)
+	defer func() {
+		if e := recover(); e != nil {
+			res.Panic = fmt.Sprint(e)
+			res.Fails = append(res.Fails, failRec{"the harness goroutine driving the history panicked: " + res.Panic, "panic"})
+		}
+		res.Ms = time.Since(t0).Milliseconds()
+	}()
+	if h.Kind == "rekey-race" {
+		runRace(h, r, idSeed, &res)
+		return res
+	}
+	srv, clients, cleanup := startWorld(h, r, idSeed, nil)
+	defer cleanup()
+	_ = srv
 	var (
 		keys0    = make([]uint32, h.NCl)
 		chanUsed = make([]bool, h.NCl)
@@ -920,6 +1067,7 @@ func genHist(r *vh.Rand, k int, class, prof string, nops int, big bool) Hist {
 		h.SleepMs = append(h.SleepMs, []int{5, 10, 20}[r.Intn(3)])
 	}
 	grid := sizeGrid()
+	many := 2 // many-fragment tasks per history
 	for i := 0; i < nops; i++ {
 		op := Op{C: r.Intn(h.NCl)}
 		if r.Intn(3) == 0 {
@@ -928,9 +1076,13 @@ func genHist(r *vh.Rand, k int, class, prof string, nops int, big bool) Hist {
 		switch x := r.Intn(100); {
 		case x < 72:
 			op.Kind, op.Seed = "task", uint32(r.U64())
-			if big && r.Intn(4) == 0 {
+			switch {
+			case big && prof == "none" && many > 0 && r.Intn(12) == 0:
+				// more fragments than the five wake-ups a client keeps a silent group
+				op.Size, many = []int{5, 6, 8}[r.Intn(3)]*limits.Frag+100, many-1
+			case big && r.Intn(4) == 0:
 				op.Size = grid[4+r.Intn(5)]
-			} else {
+			default:
 				op.Size = grid[r.Intn(4)]
 			}
 		case x < 80 && prof == "none":
@@ -978,6 +1130,9 @@ func corpus() []Hist {
 				{Kind: "task", C: 1, Size: 0, Seed: 16}}},
 		{Class: "corpus-xorzlib", NCl: 2, Profile: "xorzlib", SleepMs: []int{10, 10}, MaxJobs: 40, MaxSlots: 100,
 			Ops: []Op{{Kind: "task", C: 0, Size: 100, Seed: 17}, {Kind: "task", C: 1, Size: 1024, Seed: 18}, {Kind: "task", C: 0, Size: F + 1, Seed: 19}}},
+		{Class: "corpus-many-fragments", NCl: 2, Profile: "none", SleepMs: []int{5, 10}, MaxJobs: 40, MaxSlots: 100,
+			Ops: []Op{{Kind: "task", C: 0, Size: 5*F + 100, Seed: 31}, {Kind: "task", C: 1, Size: 6*F + 100, Seed: 32}, {Kind: "task", C: 0, Size: 100, Seed: 33},
+				{Kind: "task", C: 0, Size: 8*F + 100, Seed: 34}, {Kind: "task", C: 1, Size: 1024, Seed: 35}, {Kind: "task", C: 1, Size: 5*F + 100, Seed: 36}}},
 		teardown("corpus-channel-teardown", 100, 44),
 		teardown("corpus-channel-teardown-frag", F+1, 14),
 		{Class: "corpus-channel-xorzlib", NCl: 2, Profile: "xorzlib", SleepMs: []int{20, 20}, MaxJobs: 40, MaxSlots: 100,
@@ -1017,6 +1172,12 @@ func generate(r *vh.Rand, tier string) []Hist {
 			hs = append(hs, genHist(r, 0, p.class, p.prof, p.ops, p.big))
 		}
 	}
+	rounds := 2500
+	if tier == "thorough" {
+		rounds = 12000
+	}
+	// first, so that it runs beside the other histories from the start
+	hs = append([]Hist{{Class: "rekey-race", Kind: "rekey-race", Rounds: rounds, NCl: 1, Profile: "none", SleepMs: []int{0}, MaxJobs: 1, MaxSlots: 100}}, hs...)
 	for i := range hs {
 		hs[i].K = i
 	}
@@ -1069,6 +1230,7 @@ func childMain(file string, par int) {
 		panic(err)
 	}
 	task.Mappings[echoID] = echoTasker
+	task.Mappings[gatedID] = gatedTasker
 	var (
 		w   = bufio.NewWriter(os.Stdout)
 		wmu sync.Mutex
@@ -1226,6 +1388,7 @@ func main() {
 	)
 	runChild(hs, *par, fl.Out, results, &crashes)
 	byKey := map[string]int{}
+	raceRounds, raceKeys := 0, 0
 	var (
 		totalJobs, totalFrag, totalChan, totalRekey, chanReached, updMiss int
 		totalMs                                                           int64
@@ -1249,7 +1412,12 @@ func main() {
 		nontrivial := maxOut >= 2 || res.Frag > 0 || res.Chan > 0 || res.Rekeys > 0
 		desc := map[string]interface{}{"history": h, "jobs": res.Jobs, "fragmented": res.Frag, "channel_switches": res.Chan, "rekeys": res.Rekeys,
 			"max_outstanding": maxOut, "ms": res.Ms, "stats": res.Stats}
-		if res.Panic == "" && len(res.Fails) == 0 {
+		if h.Kind == "rekey-race" {
+			// oracle only: thousands of one-job rounds add nothing to the model comparison
+			desc["rounds"] = res.Jobs
+			out.Count(h.Class, fmt.Sprintf("%d/%d", res.Jobs, res.Rekeys), res.Rekeys > 0)
+			raceRounds, raceKeys = raceRounds+res.Jobs, raceKeys+res.Rekeys
+		} else if res.Panic == "" && len(res.Fails) == 0 {
 			out.Add(coqCase(h, res), h.Class, nontrivial, desc)
 		} else {
 			out.Count(h.Class, fmt.Sprint(h.K), false)
@@ -1261,7 +1429,7 @@ func main() {
 				continue
 			}
 			out.Fail(f.What, f.Key, map[string]interface{}{"k": h.K, "class": h.Class, "clients": h.NCl, "profile": h.Profile, "sleep_ms": h.SleepMs,
-				"max_outstanding_jobs": h.MaxJobs, "max_outstanding_slots": h.MaxSlots, "ops": h.Ops, "log_tail": res.Diag})
+				"max_outstanding_jobs": h.MaxJobs, "max_outstanding_slots": h.MaxSlots, "ops": h.Ops, "kind": h.Kind, "rounds": h.Rounds, "log_tail": res.Diag})
 		}
 		totalJobs += res.Jobs
 		totalFrag += res.Frag
@@ -1272,6 +1440,8 @@ func main() {
 		updMiss += res.Stats["update_not_seen"]
 	}
 	out.Extra("oracle_failures_by_key", byKey)
+	out.Extra("rekey_race_rounds", raceRounds)
+	out.Extra("rekey_race_rekeys", raceKeys)
 	out.Extra("histories", len(hs))
 	out.Extra("jobs", totalJobs)
 	out.Extra("fragmented_jobs", totalFrag)
